@@ -330,6 +330,28 @@ def added_post(result, OLD):
 
 def added_snap(x):
     return HUB.capture("added_snap", {"x": x})
+
+def replaced_pre(x):
+    return HUB.cond("replaced_pre", {"x": x})
+
+def replaced_post(result):
+    return HUB.cond("replaced_post", {"result": result})
+
+# a contracted function that is in use before it becomes a member of a contract-inheriting class
+@icontract.require(lambda x: HUB.cond("shared_pre", {"x": x}), error=HUB.errinst("shared_pre"))
+def shared(self, x):
+    return HUB.body("shared", {"x": x})
+
+class Base2(icontract.DBC):
+    @icontract.require(lambda x: HUB.cond("base_pre", {"x": x}), error=HUB.errinst("base_pre"))
+    @icontract.ensure(lambda result: HUB.cond("base_post", {"result": result}), error=HUB.errinst("base_post"))
+    def compute(self, x):
+        return HUB.body("Base2_compute", {"x": x})
+'''
+
+REUSE = '''
+class Derived2(Base2):
+    compute = shared
 '''
 
 
@@ -370,6 +392,49 @@ def run_post_hoc(w) -> None:
                                 {"post_hoc": name, "falsy": falsy})
                 if falsy is None and not {"added_pre", "added_snap", "added_post"} <= set(evs):
                     w.violation("C18/contract-added-by-integrator-not-evaluated", "{}: events {}".format(name, evs), {"post_hoc": name})
+            # ... and then REPLACES the lists by assignment (what the inheriting meta-class does when it merges): the wrapper
+            # must read the lists of the checker at call time
+            chk.__preconditions__ = [[icontract._types.Contract(condition=mod.replaced_pre, error=hub.errinst("replaced_pre"))]]
+            chk.__postconditions__ = [icontract._types.Contract(condition=mod.replaced_post, error=hub.errinst("replaced_post"))]
+            chk.__postcondition_snapshots__ = []
+            for falsy, want in (("replaced_pre", hub.errinst("replaced_pre")), ("replaced_post", hub.errinst("replaced_post")),
+                                ("added_pre", None), (None, None)):
+                hub.reset()
+                hub.truth = {falsy: False} if falsy else {}
+                exc = None
+                try:
+                    call(fn)
+                except BaseException as err:  # pylint: disable=broad-except
+                    exc = err
+                w.count("post_hoc_contracts_enforced")
+                w.case(("post-hoc-replaced", name, falsy))
+                evs = [e.id for e in hub.events]
+                if exc is not want or (set(evs) & {"added_pre", "added_post", "added_snap", "orig_pre", "orig_post", "k_pre"}):
+                    w.violation("C18/wrapper-evaluates-stale-lists", "{}: after the lists of the checker were replaced, with {} falsy the call "
+                                "gave {!r}; events {}".format(name, falsy, exc, evs), {"post_hoc": name, "falsy": falsy})
+        # a contracted function that was already called becomes a member of a DBC subclass: the meta-class merges the inherited
+        # contracts into its checker
+        hub.reset()
+        mod.shared(None, 1)
+        exec(compile(REUSE, loaded.path, "exec"), vars(mod))  # pylint: disable=exec-used
+        chk = icontract._checkers.find_checker(inspect.getattr_static(mod.Derived2, "compute"))
+        listed = [[getattr(c.error, "args", ("?",))[0] if not callable(c.error) else "?" for c in g] for g in chk.__preconditions__]
+        for truth, want in (({"shared_pre": False}, None), ({"base_pre": False}, None), ({"shared_pre": False, "base_pre": False}, "some"),
+                            ({"base_post": False}, hub.errinst("base_post"))):
+            hub.reset()
+            hub.truth = dict(truth)
+            exc = None
+            try:
+                mod.Derived2().compute(1)
+            except BaseException as err:  # pylint: disable=broad-except
+                exc = err
+            w.count("post_hoc_contracts_enforced")
+            w.case(("reused-after-call", str(sorted(truth))))
+            ok = (exc is None) if want is None else (exc is not None if want == "some" else exc is want)
+            if not ok:
+                w.violation("C18/wrapper-evaluates-stale-lists", "function re-used as a member after it had been called: with {} the call gave {!r} "
+                            "although the checker lists the groups {}; events {}".format(truth, exc, listed, [e.id for e in hub.events]),
+                            {"post_hoc": "reused-after-call", "truth": truth})
     finally:
         loaded.unload()
 
